@@ -289,7 +289,25 @@ pub(crate) fn m_selector_simple() {
     assert!(hidden("p:nth-child(5) { display: none; }").is_empty(), "nth-child must also match the element: {:?}", hidden("p:nth-child(5) { display: none; }"));
 }
 
+/// Whitespace and comments anywhere between the elements of a rule set's block do not matter.
+pub(crate) fn m_css_ws() {
+    let _which: u8 = kani::any();
+    let base = "<style>p{display:none;} div.x{display:none;}</style><p>hida</p><div class=\"x\">hidb</div><span>vis</span>";
+    let want = crate::config::plain().use_doc_css().string_from_read(base.as_bytes(), 60).expect("renders");
+    assert!(want.contains("vis") && !want.contains("hida") && !want.contains("hidb"), "reference sheet: {:?}", want);
+    let variants: [&str; 7] = [
+        "p { display : none ; } div.x { display : none ; }", "p{display:none ;}div.x{display:none ;}", "p{display:none/* c */;}div.x{display:none\n;\n}",
+        " p\n{\n\tdisplay:none\n}\n div.x\n{\n\tdisplay:none\n}\n", "p{/* a */display:none/* b */}/* c */div.x{display:none}", "p{display:none; }div.x{ display:none}",
+        "p{display:none;/* x */}div.x{display:none;\t}",
+    ];
+    for v in variants.iter() {
+        let html = format!("<style>{}</style><p>hida</p><div class=\"x\">hidb</div><span>vis</span>", v);
+        let got = crate::config::plain().use_doc_css().string_from_read(html.as_bytes(), 60).expect("renders");
+        assert!(got == want, "sheet {:?} styles the document differently: {:?} vs {:?}", v, got, want);
+    }
+}
+
 crate::verif_common::registry! {
-    m_selector_simple, m_at_rule_skip, m_inline_important, m_css_final_semicolon, m_css_case, m_display_none, m_descendant_self, m_css_progress, m_nth_parse, m_nth_child,
+    m_css_ws, m_selector_simple, m_at_rule_skip, m_inline_important, m_css_final_semicolon, m_css_case, m_display_none, m_descendant_self, m_css_progress, m_nth_parse, m_nth_child,
     s3_selector_specificity,
 }
